@@ -30,8 +30,32 @@ from typing import Any, Callable, Dict, List, Optional, Sequence, Tuple
 
 VERIF = os.path.dirname(os.path.dirname(os.path.abspath(__file__)))
 REPO = os.environ.get('VERIF_REPO', '/repo')
-COQ = os.path.join(VERIF, 'coq')
+COQ_MAIN = os.path.join(VERIF, 'coq')
+SCRATCH = os.path.realpath(REPO) != '/repo'
+# A run against a scratch tree (VERIF_REPO=<worktree>, tools/run_seeded.py and mutation tests) builds in its OWN copy of the Coq
+# tree: the translators regenerate coq/generated/<ID>/ from the changed source, which must not be seen by a concurrent check of /repo.
+COQ = COQ_MAIN if not SCRATCH else os.path.join(VERIF, '.work', 'scratch-coq', hashlib.sha1(os.path.realpath(REPO).encode()).hexdigest()[:12])
 PY = '/venv/bin/python'
+
+
+def prepare_scratch_coq():
+    """Copy /verif/coq (sources and compiled files, timestamps kept) to this run's scratch Coq tree."""
+    if not SCRATCH:
+        return
+    os.makedirs(COQ, exist_ok=True)
+    import fcntl
+    import glob as _glob
+    # hold the area locks of the main tree while copying, so that no half-written .vo is copied
+    locks = [open(q, 'a') for q in sorted(_glob.glob(os.path.join(COQ_MAIN, '.lock.*')))]
+    for l in locks:
+        fcntl.flock(l, fcntl.LOCK_EX)
+    try:
+        subprocess.run(['rsync', '-a', '--delete', '--exclude', '.lock.*', '--exclude', '.build.lock', '--exclude', 'cases_*',
+                        COQ_MAIN + '/', COQ + '/'], check=True)
+    finally:
+        for l in reversed(locks):
+            fcntl.flock(l, fcntl.LOCK_UN)
+            l.close()
 LOADER_DIR = os.path.join(VERIF, 'harness', 'loader')
 NPROC = os.cpu_count() or 4
 
